@@ -449,6 +449,15 @@ def run_check(prop, tier, seed):
                 nm = line.strip().split(" ")[0]
                 if nm and not line.startswith(" " * 4) and nm not in allowed and ":" in line:
                     broken.append({"kind": "axiom", "theorem": n, "axiom": line.strip()})
+    # thorough tier: independent re-check of the compiled property file and everything it depends on
+    if tier == "thorough" and ok_props and prop.props_file:
+        mod = "PE." + prop.props_file[:-2].replace("/", ".")
+        rcc, outc = sh(f"coqchk -o -silent -Q theories PE {mod}", timeout=3000, cwd=COQ)
+        summ = outc[outc.find("CONTEXT SUMMARY"):] if "CONTEXT SUMMARY" in outc else outc[-1500:]
+        cov["coqchk"] = {"cmd": f"coqchk -o -silent -Q theories PE {mod}", "exit": rcc, "summary": summ.strip()[:3000]}
+        m_ax = re.search(r"\* Axioms:\s*(.*?)\n\s*\n", summ, flags=re.S)
+        if rcc != 0 or not m_ax or m_ax.group(1).strip() != "<none>":
+            broken.append({"kind": "axiom", "theorem": mod, "axiom": "coqchk: " + (m_ax.group(1).strip() if m_ax else summ[-500:])})
     cov["theorems"] = thms
     cov["nonvacuity_examples"] = examples
     cov["print_assumptions"] = {n: t for n, t in (pa or [])}
